@@ -1313,13 +1313,22 @@ fn nontrivial(prop: &str, flags: &BTreeSet<&'static str>) -> bool {
 }
 
 pub fn run_case(prop: &str, case: &SCase, tier_caps: &[Option<usize>]) -> CaseOut {
-    let large = case.cfg[2] & 1 != 0;
-    let (viol, flags, trace) = if large {
-        let (w, _) = run_world::<20>(case, tier_caps);
-        (w.viol.clone(), w.flags.clone(), w.trace.clone())
-    } else {
-        let (w, _) = run_world::<0>(case, tier_caps);
-        (w.viol.clone(), w.flags.clone(), w.trace.clone())
+    // payload size classes: 4 bytes (smaller than a pointer), 8 (equal), 24 (larger)
+    let size_class = case.cfg[2] % 3;
+    let large = size_class == 2;
+    let (viol, flags, trace) = match size_class {
+        2 => {
+            let (w, _) = run_world::<20>(case, tier_caps);
+            (w.viol.clone(), w.flags.clone(), w.trace.clone())
+        }
+        1 => {
+            let (w, _) = run_world::<4>(case, tier_caps);
+            (w.viol.clone(), w.flags.clone(), w.trace.clone())
+        }
+        _ => {
+            let (w, _) = run_world::<0>(case, tier_caps);
+            (w.viol.clone(), w.flags.clone(), w.trace.clone())
+        }
     };
     let mut co = CaseOut::default();
     let set = preds_for(prop);
@@ -1338,14 +1347,14 @@ pub fn run_case(prop: &str, case: &SCase, tier_caps: &[Option<usize>]) -> CaseOu
     co.classes.push(("ops_executed".into(), trace.len() as u32));
     if nontrivial(prop, &flags) {
         let mut h = std::collections::hash_map::DefaultHasher::new();
-        (case.cfg[0], case.cfg[1] & 1, case.cfg[2] & 1, &trace).hash(&mut h);
+        (case.cfg[0], case.cfg[1] & 1, case.cfg[2] % 3, &trace).hash(&mut h);
         co.nontrivial = Some(h.finish());
     }
     co.sample = json!({
         "case_hex": case.to_hex(),
         "capacity": format!("{:?}", tier_caps[(case.cfg[0] as usize * tier_caps.len()) >> 8]),
         "ctor": if case.cfg[1] & 1 != 0 { "async" } else { "sync" },
-        "payload_bytes": if large { 24 } else { 4 },
+        "payload_bytes": if large { 24 } else if size_class == 1 { 8 } else { 4 },
         "history": trace,
         "flags": flags.iter().collect::<Vec<_>>(),
     });
@@ -1512,9 +1521,9 @@ fn exhaust(prop: &str, depth: u32, reduced: bool, threads: u64) -> ExOut {
                         x /= n;
                     }
                     ops.extend_from_slice(&tail);
-                    for cfg in 0..16u8 {
+                    for cfg in 0..24u8 {
                         let case = SCase {
-                            cfg: [(cfg & 3) * 64, (cfg >> 2) & 1, (cfg >> 3) & 1],
+                            cfg: [(cfg & 3) * 64, (cfg >> 2) & 1, cfg >> 3],
                             ops: ops.clone(),
                         };
                         let o = run_case(prop, &case, caps);
@@ -1588,7 +1597,7 @@ pub fn exhaustive_phase(prop: &str, tier: &str, seed: u64) -> i32 {
                 "evaluations": r.evaluations,
                 "distinct_nontrivial": r.nontrivial,
                 "exhaustive": r.failure.is_none(),
-                "rule": format!("bounded-exhaustive: every history of {} calls over a canonical alphabet of {} letters ({}), followed by observers on the first and last handle, x capacity {{0,1,2,unbounded}} x constructor {{sync,async}} x payload {{4,24 bytes}}; each history is distinct by construction; non-trivial by the property's rule", depth, nl, if reduced {"reduced alphabet"} else {"full alphabet"}),
+                "rule": format!("bounded-exhaustive: every history of {} calls over a canonical alphabet of {} letters ({}), followed by observers on the first and last handle, x capacity {{0,1,2,unbounded}} x constructor {{sync,async}} x payload {{4,8,24 bytes}}; each history is distinct by construction; non-trivial by the property's rule", depth, nl, if reduced {"reduced alphabet"} else {"full alphabet"}),
                 "samples": r.sample.iter().cloned().collect::<Vec<_>>(),
                 "inconclusive": 0,
             },
